@@ -517,7 +517,7 @@ theorem C04_handle_keeps_own (L : Level) (c : Call) (hp : wfParser L.p = true) (
 /-- the second level of `app s1 s2`: `--v` (int, 1) with `APP_S1__S2__V=5` in the environment -/
 private def L2 (flag : Bool) : Level :=
   ⟨"s2", withFlag (subParser (subParser ⟨[], some "APP", false, .none⟩ "s1" ⟨[], .none, false, .none⟩) "s2"
-      ⟨[⟨[kq "v"], .scalar, .atom 1⟩], .none, false, .none⟩) flag, ⟨[], [("APP_S1__S2__V", .atom 5)], []⟩⟩
+      ⟨[⟨[kq "v"], .scalar, .atom 1⟩], .none, false, .none⟩) flag, ⟨[], [("APP_S1__S2__V", .atom 5)], []⟩, true, false⟩
 
 example : envName (L2 true).p ⟨[kq "v"], .scalar, .atom 1⟩ = "APP_S1__S2__V" := by decide
 example : wfParser (L2 true).p = true ∧ srcWfC (L2 true).p (L2 true).src {} = true := by decide
@@ -550,10 +550,46 @@ theorem C04_order_level_sections_partial (L : Level) (below : List Level) (c : C
   have hb' : getK a.dest (defaultsAndEnvironC L.p L.src c) = evalKey a.dest (asgBaseC L.p L.src c) .none := hb
   rw [hb', valueAfter, List.append_assoc, evalKey_append, evalKey_append, evalKey_append]
 
+/-- THE SUBCOMMAND VARIABLE AS A SOURCE: a level that only the parent's subcommand variable chose (not named on the command line)
+    has no parse of its own; its arguments end with the fold of its defaults layer, its ENVIRONMENT (always read: the variable was),
+    then the section its parent holds for it (`inc`: what the named sub-parser's `parse_env(defaults=False)` gave, and sections of
+    outer configs) — whatever the level's own `default_env` flag says, as long as the enclosing parsers read the environment -/
+theorem C04_order_level_env_named (L : Level) (below : List Level) (c : Call) (inc : KV) (hp : wfParser L.p = true)
+    (hs : srcWfC L.p { L.src with argv := [] } c = true) (hinc : treeOk L.p (ownPart (nextName below) inc) = true)
+    (anc : List Bool) (hne : anc ≠ []) (hanc : ∀ e ∈ anc, e = true) (a : Arg) (ha : a ∈ L.p.args)
+    (hg : c.defaults = true → envPlain L.p (environOf L.src c) a.dest = true) :
+    getK a.dest (finalLevelE c anc L below inc) =
+      valueAfter (asgBaseC L.p L.src { c with envArg := some true } ++ asgTree (ownPart (nextName below) inc)) a.dest := by
+  cases anc with
+  | nil => exact absurd rfl hne
+  | cons e r =>
+    have he : e = true := hanc e List.mem_cons_self
+    subst he
+    have hs' : srcWfC L.p { L.src with argv := [] } { c with envArg := some true } = true := hs
+    obtain ⟨hS, hSi⟩ := stage_baseC hp ha { L.src with argv := [] } { c with envArg := some true } hs' (fun hd _ => hg hd)
+    obtain ⟨hM, hMi⟩ := stage_mergeTree hp ha _ hinc hSi
+    have hk := handleFold_keeps (L := { L with src := { L.src with argv := [] } }) hp ha { c with envArg := some true } hs'
+      (asgTree (ownPart (nextName below) inc)) _ hM hMi r (fun e' h' => hanc e' (List.mem_cons_of_mem _ h'))
+    have : getK a.dest (finalLevelE c (true :: r) L below inc) =
+        getK a.dest (mergeConfig L.p (ownPart (nextName below) inc)
+          (defaultsAndEnvironC L.p { L.src with argv := [] } { c with envArg := some true })) := hk.1
+    rw [this, hM, hS, valueAfter, evalKey_append]
+    rfl
+
+/-- the section the parent's environment layer holds for the named level is that level's environment alone (no defaults: they
+    enter below, through `handle_subcommands`) -/
+theorem C04_env_section_own (c : Call) (L : Level) :
+    envSection c [L] = defaultsAndEnvironC L.p L.src { defaults := false, envArg := some true, environ := c.environ } := rfl
+
+/-- non-vacuity: `APP_SUBCOMMAND=s1`, `APP_S1__SUBCOMMAND=s2`, `APP_S1__S2__V=5`, nothing on the command line, the second level's own
+    flag OFF: `s1.s2.v = 5` -/
+example : getK [kq "v"] (finalLevelE { envArg := some true } [true] (L2 false) [] (envSection { envArg := some true } [L2 false])) = some (.atom 5) := rfl
+
 /-- how the section reaches the next level: `parseLevelsT` hands the pending section on -/
-theorem C04_sections_chain (c : Call) (anc : List Bool) (inc : KV) (L : Level) (rest : List Level) :
+theorem C04_sections_chain (c : Call) (anc : List Bool) (inc : KV) (L : Level) (rest : List Level) (h : L.onArgv = true) :
     parseLevelsT c anc inc (L :: rest) =
-      finalLevelT c anc L rest inc :: parseLevelsT c (envRead L.p c.envArg :: anc) (ownParseT c L rest inc).2 rest := rfl
+      finalLevelT c anc L rest inc :: parseLevelsT c (envRead L.p c.envArg :: anc) (ownParseT c L rest inc).2 rest := by
+  simp only [parseLevelsT, h, if_true]
 
 /-- several outer configs: a section WITHOUT `key+` entries is assigned leaf by leaf into the pending section, so the last config wins
     key by key (documented order of the command line) -/
@@ -571,8 +607,8 @@ theorem C04_sections_last_writer (below : List Level) (outer sec pend : KV) (hn 
 
 /-- root: `--cfg`, `--l` (List[int], [17, 13]); subcommand `s1`: `--l` ([1]), `--m` ([2]) -/
 private def Rsec : Level := ⟨"", ⟨[⟨[kq "cfg"], .config, .none⟩, ⟨[kq "l"], .list, .lst [.atom 17, .atom 13]⟩], some "APP", false, .none⟩,
-  ⟨[], [], [.cfg [kq "cfg"] [(kq "s1", .dct [(kq "l+", .lst [.atom 0]), (kq "m+", .lst [.atom 5])])]]⟩⟩
-private def S1sec : Level := ⟨"s1", ⟨[⟨[kq "l"], .list, .lst [.atom 1]⟩, ⟨[kq "m"], .list, .lst [.atom 2]⟩], some "APP_s1_", false, .none⟩, ⟨[], [], []⟩⟩
+  ⟨[], [], [.cfg [kq "cfg"] [(kq "s1", .dct [(kq "l+", .lst [.atom 0]), (kq "m+", .lst [.atom 5])])]]⟩, true, false⟩
+private def S1sec : Level := ⟨"s1", ⟨[⟨[kq "l"], .list, .lst [.atom 1]⟩, ⟨[kq "m"], .list, .lst [.atom 2]⟩], some "APP_s1_", false, .none⟩, ⟨[], [], []⟩, true, false⟩
 
 /-- open finding C04-subsection-append, inside the model: `parse_args(['--cfg', '{"s1": {"l+": [0], "m+": [5]}}', 's1'])` leaves
     `s1.l = [17, 13, 0]` (the ROOT's `l` extended) and `s1.m = [5]` where the documented fold gives `[1, 0]` and `[2, 5]`; the same
@@ -648,7 +684,7 @@ theorem C04_transcription_pin :
     SourcesOrder.defaultsAndEnvironBody = ["cfg = Namespace()", "if defaults", "cfg = self.get_defaults(skip_validation=True)", "if env or (env is None and self._default_env)", "if environ is None", "environ = os.environ", "cfg_env = self._load_env_vars(env=environ, defaults=defaults)", "cfg = self.merge_config(cfg_env, cfg)", "return cfg"] ∧
     SourcesOrder.envLoops = ["for action in actions: env_var in env and isinstance(action, ActionConfigFile)", "for action in actions: env_var in env and isinstance(action, _ActionSubCommands)", "for action in actions: env_var in env and (not isinstance(action, (ActionConfigFile, _ActionSubCommands)))"] ∧
     SourcesOrder.envAssign = ["ActionConfigFile.apply_config(self, cfg, action.dest, env[env_var])", "cfg[action.dest] = subcommand = self._check_value_key(action, env_val, action.dest, cfg)", "cfg[action.dest] = self._check_value_key(action, env_val, action.dest, cfg)"] ∧
-    SourcesOrder.globOrder = ["for (key, parser) in parent_parsers.get()", "for pattern in parser.default_config_files", "files = sorted(glob.glob(os.path.expanduser(pattern)))", "default_config_files += [(key, v) for v in files]", "for pattern in self.default_config_files", "files = sorted(glob.glob(os.path.expanduser(pattern)))", "default_config_files += [(None, x) for x in files]"] ∧
+    SourcesOrder.globOrder = ["for (key, parser) in parent_parsers.get()[-1:]", "for pattern in parser.default_config_files", "files = sorted(glob.glob(os.path.expanduser(pattern)))", "default_config_files += [(key, v) for v in files]", "for pattern in self.default_config_files", "files = sorted(glob.glob(os.path.expanduser(pattern)))", "default_config_files += [(None, x) for x in files]"] ∧
     SourcesOrder.defaultConfigLoop = ["for action in filter_default_actions(self._actions)", "cfg[action.dest] = recreate_branches(action.default)", "for (key, default_config_file) in default_config_files", "cfg_file = self._load_config_parser_mode(default_config_file.get_content(), key=key)", "cfg = self.merge_config(cfg_file, cfg)"] ∧
     SourcesOrder.applyAppendsBody = ["for key in [k for k in cfg.keys() if k.endswith('+')]", "action = _find_action(parser, key[:-1])", "if ActionTypeHint.supports_append(action)", "val = action._check_type_(cfg[key], append=True, cfg=cfg)", "cfg[key[:-1]] = val", "cfg.pop(key)"] ∧
     SourcesOrder.typeHintCall = ["val = NestedArg(key=sub_opt, val=val)", "append = opt_str == f'--{self.dest}+'", "val = self._check_type_(val, append=append, cfg=cfg)", "cfg.update(val, self.dest)"] ∧
@@ -664,7 +700,9 @@ theorem C04_transcription_pin :
     SourcesOrder.parseCommonEnv = ["if env is None and self._default_env", "env = True", "if not skip_subcommands", "_ActionSubCommands.handle_subcommands(self, cfg, env=env, defaults=defaults, fail_no_subcommand=fail_no_subcommand)"] ∧
     SourcesOrder.parseArgsWith = ["_ActionSubCommands.parse_kwargs_context({'env': env, 'defaults': defaults})"] ∧
     SourcesOrder.parseEnvBody = ["skip_validation, skip_subcommands = get_private_kwargs(kwargs, _skip_validation=False, _skip_subcommands=False)", "cfg = self._parse_defaults_and_environ(defaults, env=True, environ=env)", "kwargs = {'env': True, 'defaults': defaults, 'with_meta': with_meta, 'skip_validation': skip_validation, 'skip_subcommands': skip_subcommands}", "kwargs['fail_no_subcommand'] = False", "parsed_cfg = self._parse_common(cfg=cfg, **kwargs)"] ∧
+    SourcesOrder.envSubcommandBranch = ["if env_val in action.choices", "pcfg = action._name_parser_map[env_val].parse_env(env=env, defaults=False, _skip_validation=True)", "for (k, v) in vars(pcfg).items()", "cfg[subcommand + '.' + k] = v"] ∧
+    SourcesOrder.mergeConfigWith = ["with parser_context(parent_parser=self): ActionTypeHint.discard_init_args_on_class_path_change(self, cfg_to, cfg_from); cfg_to.update(cfg_from); ActionTypeHint.apply_appends(self, cfg_to)"] ∧
     SourcesOrder.loadEnvStart = "cfg = Namespace()" := by
-  exact ⟨rfl, rfl, rfl, rfl, rfl, rfl, rfl, rfl, rfl, rfl, rfl, rfl, rfl, rfl, rfl, rfl, rfl, rfl, rfl, rfl, rfl, rfl, rfl, rfl⟩
+  exact ⟨rfl, rfl, rfl, rfl, rfl, rfl, rfl, rfl, rfl, rfl, rfl, rfl, rfl, rfl, rfl, rfl, rfl, rfl, rfl, rfl, rfl, rfl, rfl, rfl, rfl, rfl⟩
 
 end Jap.Props.C04
